@@ -17,7 +17,7 @@ SHARD = 150
 SKIPPED_FN = "case_unsupported"
 CASE_TIMEOUT = 40
 RULE = ("(artefact passes: plain; update_key on every template; update mode = update_input_file + pass-through fields on a hidden-field template) SF-core recipes with hidden fields / hidden tables at top level, nested, in friends, as reference targets "
-        "and as formula / count inputs; every output format (txt, json, csv folder, sql script, sqlite db) and the "
+        "and as formula / count inputs; every output format (txt, json, csv folder, sql script, sqlite db, Graphviz dot) and the "
         "generated CCI mapping are scanned for identifiers; metamorphic oracle: renaming the hidden names to visible "
         "ones must not change any other row; compared projection with the model: table and field names of every "
         "written row.  non-trivial: recipe contains a hidden name and completes; distinct by recipe hash")
@@ -298,6 +298,22 @@ def _scan_artefacts(recipe, reps, update=False):
                 except ValueError:
                     pass
         idents["csv"] = ids
+        # the Graphviz text output (dot; the image formats are made from it by the `dot` program): node labels
+        # `Table(id[, name])` and edge labels (field names).  A run of its own: a diagram that cannot be drawn
+        # (close() fails, e.g. a link to a row that was never written) is not this property's business
+        try:
+            dotf = d / "o.dot"
+            with draws():
+                generate_data(str(d / "r.yml"), parent_application=QuietApp(StoppingCriteria("__REPS__", reps)),
+                              output_file=str(dotf), output_format="dot", **extra)
+            ids = []
+            for lab in re.findall(r'label="([^"]*)"', dotf.read_text() if dotf.exists() else ""):
+                m = re.match(r"^([^\s(]+)\(", lab)
+                ids.append(m.group(1) if m else lab)
+            idents["dot"] = ids
+        except BaseException as e:
+            if type(e).__name__ == "_CaseTimeout":
+                raise
         ids = []
         mp = yaml.safe_load(mapf.read_text()) or {}
         for step, m in mp.items():
